@@ -196,7 +196,7 @@ func init() {
 			}
 			n := 0
 			for _, fi := range c.all {
-				ast.Inspect(fi.Decl.Body, func(nd ast.Node) bool {
+				fi.inspect(fi.Decl.Body, func(nd ast.Node) bool {
 					switch x := nd.(type) {
 					case *ast.RangeStmt:
 						if _, isMap := fi.Info.TypeOf(x.X).Underlying().(*types.Map); !isMap {
@@ -311,7 +311,7 @@ func init() {
 			}
 			// printer configuration
 			for fi := range rr.in {
-				ast.Inspect(fi.Decl.Body, func(nd ast.Node) bool {
+				fi.inspect(fi.Decl.Body, func(nd ast.Node) bool {
 					if sel, ok := nd.(*ast.SelectorExpr); ok && sel.Sel.Name == "SourcePos" {
 						r.Bad("printer/SourcePos@"+fi.Name, sel.Pos(), "printer emits //line directives with absolute file names")
 					}
@@ -326,7 +326,7 @@ func init() {
 			hit := false
 			for _, fi := range c.all {
 				if fi.Pkg == c.Cmd && !hit {
-					for _, cl := range callsIn(fi.Decl.Body) {
+					for _, cl := range fi.callsDeep(fi.Decl.Body) {
 						if runSpecific(fi.calleeName(cl)) {
 							hit = true
 							r.Control("run-specific detector (os.Getwd / os.Environ in cmd/wire)", true, cl.Pos())
@@ -382,7 +382,7 @@ func init() {
 				return
 			}
 			n := 0
-			ast.Inspect(g.Decl.Body, func(nd ast.Node) bool {
+			g.inspect(g.Decl.Body, func(nd ast.Node) bool {
 				as, ok := nd.(*ast.AssignStmt)
 				if !ok || len(as.Rhs) != 1 {
 					return true
@@ -423,7 +423,7 @@ func init() {
 			qi := r.Need(c.Fn(c.W, "gen.qualifyImport"), "gen.qualifyImport")
 			if qi != nil {
 				keys := map[*types.Var]int{}
-				ast.Inspect(qi.Decl.Body, func(nd ast.Node) bool {
+				qi.inspect(qi.Decl.Body, func(nd ast.Node) bool {
 					ix, ok := nd.(*ast.IndexExpr)
 					if !ok {
 						return true
@@ -460,7 +460,7 @@ func init() {
 			iw := r.Need(c.Fn(c.W, "isWireImport"), "isWireImport")
 			if iw != nil {
 				okS, okC := false, false
-				ast.Inspect(iw.Decl.Body, func(nd ast.Node) bool {
+				iw.inspect(iw.Decl.Body, func(nd ast.Node) bool {
 					if cl, ok := nd.(*ast.CallExpr); ok && iw.calleeName(cl) == "strings.LastIndex" {
 						okS = true
 					}
@@ -473,7 +473,7 @@ func init() {
 			}
 			// frame prints the table key (canonical path), never importInfo-internal data
 			if t := traceOf(c, r, "gen.frame"); t != nil {
-				r.Check(strings.Contains(t.text, "«SORT m1» LOOP[range m1 as k1,v1]{ ALT[recv.imports[v1].differs]{ ⟨recv.imports[v1].name⟩ ⟨q:v1⟩ ¶ }{ ⟨q:v1⟩ ¶ } }"), "frame/prints-sorted-canonical-paths", t.fi.Decl.Pos(), "imports are printed from the sorted key list, quoting the canonical path")
+				r.Check(strings.Contains(t.text, "«SORT m1» LOOP[range m1 as k1,v1]{ ALT[recv.imports[v1].differs]{ ⟨recv.imports[v1].name⟩ }{ } ⟨q:v1⟩ ¶ }"), "frame/prints-sorted-canonical-paths", t.fi.Decl.Pos(), "imports are printed from the sorted key list, quoting the canonical path")
 			}
 		})
 }
